@@ -512,7 +512,11 @@ class DictDecoder:
             if var.local_name == key:
                 var_is_list = var.list_element or var.tokens
                 is_array = collections.is_array(value)
-                if is_array == var_is_list:
+                if is_array and not var_is_list and var.elements:
+                    # A single compound value can be the list of a tokens choice
+                    var_is_list = any(c.tokens for c in var.elements.values())
+
+                if is_array == var_is_list or (value is None and var.tokens):
                     return var
             elif var.wrapper == key:
                 if isinstance(value, dict) and var.local_name in value:
